@@ -6,8 +6,10 @@ from props import env_scenarios as E
 LEVEL = "proof"
 
 
-def native_runs(run, n, gen_key, computer, count):
-    """Bounded: the real classes along sequences of allowed sizes until done, random tie-breaks (np.random seeded)."""
+def native_runs(run, n, gen_key, computer, count, ask_mask=True):
+    """Bounded: the real classes along sequences of allowed sizes until done, random tie-breaks (np.random seeded).
+    ask_mask=False: the caller never asks the linear environment for its mask between steps (the allowed sizes are
+    worked out from the inner environment) - a step must not rely on the caller having done so."""
     import numpy as np
     from pyvc.mode import native_pkg
     P = native_pkg()
@@ -26,14 +28,18 @@ def native_runs(run, n, gen_key, computer, count):
             m_in = inner.action_masks()
             exp_mask = np.array([bool(((sizes == s) & m_in).any()) for s in range(n)])
             exp_obs = np.array([inner.state[sizes == s].sum() for s in range(n)])
-            if not (np.array_equal(lin.action_masks(), exp_mask) and np.allclose(lin.state, exp_obs, rtol=1e-12, atol=1e-12)
+            if not ((not ask_mask or np.array_equal(lin.action_masks(), exp_mask)) and np.allclose(lin.state, exp_obs, rtol=1e-12, atol=1e-12)
                     and len(obs) == n and np.allclose(obs, exp_obs, rtol=1e-12, atol=1e-12)):
                 return evals, {"generator": gen_key, "n": n, "what": "mask/observation", "mask": lin.action_masks().tolist(), "expected": exp_mask.tolist()}
             if inner.done or not exp_mask.any():
                 break
             s = int(run.rng.choice([k for k in range(n) if exp_mask[k]]))
             before = m_in.copy()
-            obs, rew, done, trunc, info = lin.step(s)
+            try:
+                obs, rew, done, trunc, info = lin.step(s)
+            except Exception as e:
+                return evals, {"generator": gen_key, "n": n, "what": "step with an allowed size raised", "size": s,
+                               "error": f"{type(e).__name__}: {e}", "mask_asked_between_steps": ask_mask}
             after = inner.action_masks()
             flipped = [j for j in range(len(sizes)) if before[j] and not after[j]]
             ok = len(flipped) == 1 and sizes[flipped[0]] == s and info == {"chosen_coalition": inner.explorable_coalitions[flipped[0]].id} \
@@ -61,6 +67,9 @@ def main(run):
         run.prove(f"reset[n={n},{gap}]", E.sc_linear_reset, {"n": n, "gap": gap}, pkg=pkg)
     # hidden games of ANY class (no superadditivity assumption): the observation clause must not depend on the class
     run.prove("linear.any_class[n=3,size=2]", E.sc_linear_env, {"n": 3, "size": 2, "gap": "l1_norm", "cls": None}, pkg=pkg)
+    # consecutive steps with no mask query in between (a step must not depend on the caller having asked for the mask)
+    run.prove("two_steps[n=3,2,2]", E.sc_linear_two_steps, {"n": 3, "sizes": [2, 2]}, pkg=pkg)
+    run.prove("two_steps[n=4,2,2,3]", E.sc_linear_two_steps, {"n": 4, "sizes": [2, 2, 3], "gap": "l1_norm"}, pkg=pkg)
     run.discharge()
     rows = []
     for gk, comp in (("xos2", "sam_apx_1"), ("oxs", "sam_apx_1"), ("factory", "superadditive_cached"), ("noisy_factory", "superadditive_cached"), ("graph_cycle", "superadditive"),
@@ -74,6 +83,14 @@ def main(run):
             rows.append({"generator": gk, "computer": comp, "n": n, "steps_checked": e, "failure": w})
             if w:
                 run._report_violation(f"native[{gk},n={n}]/{w['what']}", E.sc_linear_env, {"n": n, "size": 2}, w, True, detail={"layer": "bounded"})
+            if n <= 5 and gk in ("xos2", "factory", "noisy_factory"):
+                e, w = native_runs(run, n, gk, comp, 8 if quick else 30, ask_mask=False)
+                run.native_evals += e
+                run.native_distinct.update(("lin-nomask", gk, n, j) for j in range(e))
+                rows.append({"generator": gk, "computer": comp, "n": n, "steps_checked": e, "failure": w, "mask_asked_between_steps": False})
+                if w:
+                    run._report_violation(f"native.no_mask_calls[{gk},n={n}]/{w['what']}", E.sc_linear_env, {"n": n, "size": 2}, w, True,
+                                          detail={"layer": "bounded"})
     run.bounded.append({"label": "real ICG_Gym_Linear over real ICG_Gym", "rows": rows,
                         "bound": "seeded sequences of allowed sizes until done, n=3..6, several families, random tie-breaks"})
     return run.finish(
